@@ -16,7 +16,7 @@ import numpy as np
 from . import common
 from pvc import core
 
-MODULES = ['dassh.assembly']
+MODULES = ['dassh.assembly', 'dassh.table']
 PROPERTY = 'C15'
 LEAN_LEMMAS = ['running_max_ge', 'running_max_attained']        # /verif/lean/Ghost.lean, checked in the thorough tier
 FUNCTIONS = ['dassh.assembly:Assembly._update_peak_coolant_temps', 'dassh.assembly:Assembly._update_peak_duct_temps',
@@ -165,13 +165,117 @@ pins.cname = 'Assembly._update_peak_pin_temps'
 pins.run_kw = dict(pool_size=12, max_paths=400)
 
 
+def step_glue(S, cfg):
+    """the real Assembly.calculate with a recording region: the peak records are updated AFTER the fields of this step
+    exist - after the call every peak bounds the coolant, duct and pin temperatures the region computed in THIS step,
+    the heights stored with a new peak are this step's z, and the pressure drop is charged for (z, dz) of this step."""
+    from dassh import assembly as A
+    npin, nd = 2, 2
+    new_cool = S.vec('new_cool', 3, 'pos', 600.0, 1200.0)
+    new_duct = S.vec('new_duct', (1, nd), 'pos', 600.0, 1200.0)
+    new_pins = S.vec('new_pins', (npin, 9), 'pos', 600.0, 1500.0)
+    old_cool = S.vec('old_cool', 3, 'pos', 600.0, 1200.0)
+    old_duct = S.vec('old_duct', (1, nd), 'pos', 600.0, 1200.0)
+    old_pins = S.vec('old_pins', (npin, 9), 'pos', 600.0, 1500.0)
+    log = []
+
+    class Region:
+        pin_model = object()
+
+        def __init__(self):
+            self.temp = {'coolant_int': old_cool.copy(), 'duct_mw': old_duct.copy()}
+            self.pin_temps = old_pins.copy()
+
+        def calculate(self, dz, q, t_gap, h_gap, adiabatic, ebal):
+            log.append('calculate')
+            self.temp['coolant_int'] = new_cool.copy()
+            self.temp['duct_mw'] = new_duct.copy()
+
+        def calculate_pressure_drop(self, z, dz):
+            log.append(('dp', z, dz))
+
+        def calculate_pin_temperatures(self, dz, q):
+            log.append('pins')
+            self.pin_temps[:, :] = new_pins
+
+    class Power:
+        def get_power_sweep(self, z=None):
+            return {'pins': None, 'cool': None, 'duct': None}
+    asm = A.Assembly.__new__(A.Assembly)
+    reg = Region()
+    asm.region = [reg]
+    asm._active_region_idx = 0
+    asm.power = Power()
+    asm._power_delivered = {'pins': 0.0, 'cool': 0.0, 'duct': 0.0}
+    z0 = S.pos('z0', 0.1, 2.0)
+    dz = S.pos('dz', 0.001, 0.01)
+    asm._z = z0
+    asm._peak = {'cool': (S.nonneg('pk_cool', 0.0, 1300.0), S.nonneg('pk_cool_z', 0.0, 0.1)),
+                 'duct': [(S.nonneg('pk_duct', 0.0, 1300.0), S.nonneg('pk_duct_z', 0.0, 0.1))],
+                 'pin': {'clad_od': [S.nonneg('pk_clad', 0.0, 1600.0), 4, list(S.vec('old_prof_c', 9, 'pos', 500.0, 1500.0))],
+                         'fuel_cl': [S.nonneg('pk_fuel', 0.0, 1600.0), 8, list(S.vec('old_prof_f', 9, 'pos', 500.0, 1500.0))]}}
+    use_z = cfg.get('z_given', False)
+    z_new = z0 + dz
+    asm.calculate(dz, None, None, z=(z_new if use_z else None))
+    S.eq('step.height_advanced', asm.z, z_new)
+    for c in range(3):
+        S.le(f'step.coolant_peak_covers_this_step[{c}]', new_cool[c], asm._peak['cool'][0])
+    for c in range(nd):
+        S.le(f'step.duct_peak_covers_this_step[{c}]', new_duct[0, c], asm._peak['duct'][0][0])
+    for k, col in (('clad_od', 4), ('fuel_cl', 8)):
+        for p in range(npin):
+            S.le(f'step.pin_peak_covers_this_step[{k},{p}]', new_pins[p, col], asm._peak['pin'][k][0])
+    S.holds('step.pressure_drop_charged_for_this_step', [e for e in log if isinstance(e, tuple)] == [('dp', asm.z, dz)]
+            if S.mode != 'sym' else len([e for e in log if isinstance(e, tuple)]) == 1)
+    e = [x for x in log if isinstance(x, tuple)]
+    if len(e) == 1:
+        S.eq('step.pressure_drop_z', e[0][1], z_new)
+        S.eq('step.pressure_drop_dz', e[0][2], dz)
+    S.holds('step.region_advanced_once', log.count('calculate') == 1 and log.count('pins') == 1)
+    S.le('canary.step_peak_is_old_field', asm._peak['cool'][0], old_cool[0] * 0, canary=True)
+
+
+step_glue.cname = 'Assembly.calculate/peaks'
+step_glue.run_kw = dict(pool_size=12, max_paths=600, check_div=False)
+
+
+def duct_face_avg(S, cfg):
+    """DuctTempTable._get_avg_duct_face_temp (the outlet face temperatures of the duct summary): for every duct d and hex
+    face f the value is the plain average of the final-plane mid-wall temperatures of THAT duct over the face's own cells
+    (the last of them its trailing corner) and the corner it shares with the preceding face of the same duct."""
+    from dassh import table
+    nduct, ndps = cfg['n_duct'], cfg['cells_per_side']
+    ndsc = 6 * ndps
+    T = S.vec('Tmw', (nduct, ndsc), 'pos', 600.0, 1200.0)
+
+    class Reg:
+        temp = {'duct_mw': T}
+
+    class Asm:
+        region = [Reg()]
+    out = table.DuctTempTable._get_avg_duct_face_temp(Asm())
+    for d in range(nduct):
+        for f in range(6):
+            if ndps == 1:
+                cells = [f, (f - 1) % 6]
+            else:
+                cells = list(range(f * ndps, (f + 1) * ndps)) + [(f * ndps - 1) % ndsc]
+            S.eq(f'table.duct_face_average[d{d},f{f}]', out[d][f] * len(cells), sum(T[d, c] for c in cells))
+    S.eq('canary.duct_face_is_one_cell', out[0][0], T[0, 0], canary=True)
+
+
+duct_face_avg.cname = 'DuctTempTable._get_avg_duct_face_temp'
+
+
 def configs(tier):
     out = [(coolant, dict(n=3)),
            (duct, dict(n_region_ducts=1, n_peak_ducts=1, cells=2)),
            (duct, dict(n_region_ducts=1, n_peak_ducts=2, cells=2)),
            (duct, dict(n_region_ducts=2, n_peak_ducts=2, cells=2)),
            (duct, dict(n_region_ducts=2, n_peak_ducts=3, cells=1)),
-           (pins, dict(n_pin=2, n_keys=2))]
+           (pins, dict(n_pin=2, n_keys=2)), (step_glue, dict()), (step_glue, dict(z_given=True)),
+           (duct_face_avg, dict(n_duct=1, cells_per_side=3)), (duct_face_avg, dict(n_duct=2, cells_per_side=2)),
+           (duct_face_avg, dict(n_duct=2, cells_per_side=1)), (duct_face_avg, dict(n_duct=3, cells_per_side=3))]
     if tier == 'thorough':
         out += [(coolant, dict(n=5)), (duct, dict(n_region_ducts=2, n_peak_ducts=3, cells=3)),
                 (pins, dict(n_pin=3, n_keys=2))]
